@@ -283,6 +283,9 @@ SHAPES = {
     "mixed+None": {"F2_total": ("ESF", 2, [(0, 0, 0, 0), (1, 0, 0, 0)], None), "XSCHORUSCC_light": ("EXS", 1, [(0, 0, 0, 0)], 3), "FL_bottom": (None, None, None, None)},
     "empty-observable": {"F2_total": ("ESF", 0, [(0, 0, 0, 0)], 4), "F3_total": ("ESF", 1, [(0, 0, 0, 0)], 4)},
     "only-None": {"g1_total": (None, None, None, None)},
+    # names as a card may spell them (no heavyness suffix; both spellings side by side): the runner keys
+    # its output by the name as given, so that name is what must come back
+    "short-names": {"F2": ("ESF", 1, [(0, 0, 0, 0)], None), "F2_total": ("ESF", 2, [(0, 0, 0, 0), (1, 0, 0, 0)], 4), "XSHERANC": ("EXS", 1, [(0, 0, 0, 0)], None), "FL": (None, None, None, None), "g1": ("ESF", 0, [(0, 0, 0, 0)], 4)},
 }
 
 
